@@ -7,6 +7,14 @@ RULE = ("history over several trackables with >= 1 delivery and at least one of:
         "copy/move construction or assignment; distinct = distinct program text")
 
 
+def canon(t):
+    """deliveries exactly; per live trackable only whether registrations are left (not how the list is stored)"""
+    head, _, tail = t.partition("|")
+    tail = re.sub(r":(?:-|0)\b", ":0", tail)
+    tail = re.sub(r":[1-9]\d*", ":+", tail)
+    return head + "|" + tail
+
+
 def nontrivial(p, t):
     return bool(re.search(r"d\d", t)) and bool(re.search(r"K \d+ \d+ r| cc | mc | as | ma ", p))
 
@@ -28,7 +36,7 @@ def run(pid, args):
         progs = load_corpus(pid) + gen_track.generate(seed, n, 25 if tier == "quick" else 40)
     mout = corr.run_model(model_exe, "track", progs)
     iout = corr.run_impl(exe, "track", progs)
-    mism = [{"program": p, "model": m, "impl": i} for p, m, i in zip(progs, mout, iout) if m != i]
+    mism = [{"program": p, "model": m, "impl": i} for p, m, i in zip(progs, mout, iout) if canon(m) != canon(i)]
     nt = set(p for p, m in zip(progs, mout) if nontrivial(p, m))
     v.coverage.update({"evaluations": len(progs), "distinct_nontrivial": len(nt), "rule": RULE,
                        "traces_validated_against_impl": len(progs) - len(mism),
@@ -37,7 +45,7 @@ def run(pid, args):
     known, _ = known_findings()
     for mm in mism[:3]:
         def fails(line):
-            return corr.run_model(model_exe, "track", [line])[0] != corr.run_impl(exe, "track", [line], shards=1)[0]
+            return canon(corr.run_model(model_exe, "track", [line])[0]) != canon(corr.run_impl(exe, "track", [line], shards=1)[0])
         toks = mm["program"].split(" M ")
         ops = re.findall(r"(?:new|no|de) \d+|(?:cc|mc|as|ma|add|rm) \d+ \d+", toks[-1])
         changed = True
